@@ -1,6 +1,429 @@
-//! C09 — stub (monitor not built yet).
-use crate::core::Ctx;
+//! C09 — RRDP files round-trip and hostile XML is rejected within fixed bounds.
+//!
+//! Sub-workloads (each an oracle written from the property statement):
+//!  1. round trips: `parse(write_xml(v)) == v` for generated notification /
+//!     snapshot / delta values, compared field by field with the model value
+//!     (including element order) and through the harness' own
+//!     `ProcessSnapshot` / `ProcessDelta` collectors;
+//!  2. foreign but valid documents from an independent writer (observation);
+//!  3. never-ending hostile streams behind a counting reader (c09_hostile);
+//!  4. delta-chain and origin checks against a model (c09_deltas);
+//!  5. byte-mutated documents and random bytes: no panic (c09_hostile).
+
+use crate::c09_gen::{self as g, Kind, MDelta, MEl, MNotif, MSnap, SizePlan, Style};
+use crate::c09_io::Dribble;
+use crate::c09_lib::{self as l, Collect, ReadMode};
+use crate::core::{hex, Ctx, Rng, Stage, Tier};
+use rpki::rrdp::{Delta, NotificationFile, ProcessDelta, ProcessSnapshot, Snapshot};
+use serde_json::json;
+use std::io::BufReader;
 
 pub fn run(ctx: &mut Ctx) {
-    ctx.notes.push("C09: monitor not built yet".into());
+    let limits = rpki::rrdp::VERIF_LIMITS;
+    ctx.obs_max("configured_header_limit", limits.0);
+    ctx.obs_max("configured_file_limit", limits.1);
+    let timing = std::env::var_os("C09_TIMING").is_some();
+    let mut last = ctx.elapsed_s();
+    let mut lap = |ctx: &Ctx, what: &str| {
+        if timing {
+            let now = ctx.elapsed_s();
+            eprintln!("C09 timing {:<14} {:.2}s", what, now - last);
+            last = now;
+        }
+    };
+    roundtrips(ctx);
+    lap(ctx, "roundtrips");
+    foreign(ctx);
+    lap(ctx, "foreign");
+    crate::c09_deltas::delta_chain(ctx);
+    lap(ctx, "delta_chain");
+    crate::c09_deltas::origins(ctx);
+    lap(ctx, "origins");
+    crate::c09_hostile::hostile(ctx, limits);
+    lap(ctx, "hostile");
+    crate::c09_hostile::finite_hostile(ctx);
+    lap(ctx, "finite_hostile");
+    crate::c09_hostile::mutation(ctx);
+    lap(ctx, "mutation");
+}
+
+fn head(xml: &[u8]) -> String {
+    String::from_utf8_lossy(&xml[..xml.len().min(600)]).into_owned()
+}
+
+/// How the bytes are handed to the parser.
+fn reader_plan(rng: &mut Rng, len: usize) -> Option<(usize, Vec<usize>)> {
+    match rng.below(4) {
+        0 => None, // the slice itself (it is a BufRead)
+        1 => Some((*rng.pick(&[1usize, 2, 3, 7, 64]), vec![1, 5, 2, 64])),
+        2 => Some((8192, vec![4096, 1, 8191, 3])),
+        _ => Some((rng.range(16, 70_000) as usize, vec![len.max(1)])),
+    }
+}
+
+fn plan_for(ctx: &Ctx, rng: &mut Rng, i: u64) -> (SizePlan, &'static str) {
+    if ctx.stage == Stage::Miri {
+        return (SizePlan { max_elements: 3, data_cap: 80, long_uris: false }, "tiny");
+    }
+    // the first cases of every shard are the big ones, so that a quick run
+    // always contains documents larger than the per-element limits
+    match i {
+        0 => (SizePlan { max_elements: 300, data_cap: 65_536, long_uris: true }, "large"),
+        _ => match rng.below(20) {
+            0 => (SizePlan { max_elements: 300, data_cap: 65_536, long_uris: true }, "large"),
+            1..=4 => (SizePlan { max_elements: 300, data_cap: 4_096, long_uris: true }, "medium"),
+            _ => (SizePlan { max_elements: 40, data_cap: 700, long_uris: false }, "small"),
+        },
+    }
+}
+
+fn roundtrips(ctx: &mut Ctx) {
+    let n = crate::c09_io::budget(ctx, (7_200, 240_000), 9_000, (8, 48));
+    let mut rng = ctx.rng("roundtrip");
+    let mut gen_rejected = 0u64;
+    let miri = ctx.stage == Stage::Miri;
+    for i in 0..n {
+        let kind = Kind::ALL[(i % 3) as usize];
+        let (mut plan, size) = plan_for(ctx, &mut rng, i / 3);
+        let big = i / 3 == 0 && !miri;
+        if big && kind != Kind::Notification {
+            // make sure the total exceeds the header limit many times over
+            plan.max_elements = 300;
+        }
+        match kind {
+            Kind::Notification => {
+                let mut m = g::gen_notif(&mut rng, &plan);
+                if big {
+                    // > header limit in total while every element stays small
+                    while m.deltas.len() < 300 {
+                        m.deltas.push((g::gen_serial(&mut rng), g::gen_https(&mut rng, None, true), g::gen_hash(&mut rng)));
+                    }
+                    for d in m.deltas.iter_mut() {
+                        if d.1.len() < 3000 {
+                            d.1 = format!("{}/{}", d.1, "p".repeat(3600));
+                        }
+                    }
+                }
+                match l::lib_notif(&m) {
+                    Some(v) => rt_notif(ctx, &mut rng, &m, &v, size),
+                    None => gen_rejected += 1,
+                }
+            }
+            Kind::Snapshot => {
+                let mut m = g::gen_snap(&mut rng, &plan);
+                if big {
+                    while m.elements.len() < 40 {
+                        m.elements.push((g::gen_rsync(&mut rng, false), rng.bytes(65_536)));
+                    }
+                }
+                match l::lib_snap(&m) {
+                    Some(v) => rt_snap(ctx, &mut rng, &m, &v, size),
+                    None => gen_rejected += 1,
+                }
+            }
+            Kind::Delta => {
+                let mut m = g::gen_delta(&mut rng, &plan);
+                if big {
+                    while m.elements.len() < 40 {
+                        let u = g::gen_rsync(&mut rng, false);
+                        let k = m.elements.len() % 3;
+                        m.elements.push(match k {
+                            0 => MEl::Publish(u, rng.bytes(65_536)),
+                            1 => MEl::Withdraw(u, g::gen_hash(&mut rng)),
+                            _ => MEl::Update(u, g::gen_hash(&mut rng), rng.bytes(65_535)),
+                        });
+                    }
+                }
+                match l::lib_delta(&m) {
+                    Some(v) => rt_delta(ctx, &mut rng, &m, &v, size),
+                    None => gen_rejected += 1,
+                }
+            }
+        }
+    }
+    if gen_rejected > 0 {
+        ctx.obs("generator_values_rejected_by_constructors", gen_rejected);
+        ctx.notes.push(format!("C09: {} generated URIs were refused by the crate's URI constructors (generator bug, cases skipped)", gen_rejected));
+    }
+}
+
+fn chars_of<'a>(uris: impl Iterator<Item = &'a str>) -> String {
+    let mut set = std::collections::BTreeSet::new();
+    for u in uris {
+        for c in g::uri_class(u).chars() {
+            set.insert(c);
+        }
+    }
+    set.into_iter().collect()
+}
+
+fn rt_notif(ctx: &mut Ctx, rng: &mut Rng, m: &MNotif, v: &NotificationFile, size: &str) {
+    let mut xml = Vec::new();
+    if let Err(e) = v.write_xml(&mut xml) {
+        ctx.violation("C09:roundtrip:notification:write-failed", &format!("write_xml failed: {}", e), json!({"serial": m.serial}));
+        return;
+    }
+    ctx.obs_max("roundtrip_doc_bytes_notification", xml.len() as u64);
+    let plan = reader_plan(rng, xml.len());
+    let limited = match rng.below(4) {
+        0 => Some(m.deltas.len()),
+        1 => Some(m.deltas.len() + 1),
+        _ => None,
+    };
+    let detail = || json!({"xml_head": head(&xml), "xml_len": xml.len(), "deltas": m.deltas.len(), "reader": format!("{:?}", plan), "parse_limited": limited});
+    let res = ctx.no_panic("NotificationFile::parse", detail, || match (&plan, limited) {
+        (None, None) => NotificationFile::parse(&xml[..]),
+        (None, Some(k)) => NotificationFile::parse_limited(&xml[..], k),
+        (Some((cap, chunks)), None) => NotificationFile::parse(BufReader::with_capacity(*cap, Dribble::new(&xml, chunks.clone()))),
+        (Some((cap, chunks)), Some(k)) => {
+            NotificationFile::parse_limited(BufReader::with_capacity(*cap, Dribble::new(&xml, chunks.clone())), k)
+        }
+    });
+    ctx.eval();
+    ctx.sig(&format!(
+        "rt notification n={} chars={} size={}",
+        g::count_class(m.deltas.len()),
+        chars_of(std::iter::once(m.snapshot.0.as_str()).chain(m.deltas.iter().map(|d| d.1.as_str()))),
+        size
+    ));
+    match res {
+        None => {}
+        Some(Err(e)) => ctx.violation(
+            "C09:roundtrip:notification:rejected",
+            &format!("a notification written by write_xml was rejected by parse: {}", e),
+            detail(),
+        ),
+        Some(Ok(p)) => {
+            ctx.obs("roundtrip_ok_candidates", 1);
+            if let Some(f) = l::diff_notif(&p, m) {
+                ctx.violation(&format!("C09:roundtrip:notification:{}", f), "parsed notification differs from the written value", detail());
+            } else if p != *v {
+                ctx.violation("C09:roundtrip:notification:not-eq", "parsed notification != written value although all fields agree", detail());
+            }
+        }
+    }
+    ctx.sample("roundtrip-notification", || {
+        json!({"session": g::uuid_text(&m.session), "serial": m.serial, "snapshot_uri": m.snapshot.0, "deltas": m.deltas.len(),
+               "xml_len": xml.len(), "xml_head": head(&xml), "observed": "parsed value equal to written value"})
+    });
+}
+
+fn rt_snap(ctx: &mut Ctx, rng: &mut Rng, m: &MSnap, v: &Snapshot, size: &str) {
+    let mut xml = Vec::new();
+    if let Err(e) = v.write_xml(&mut xml) {
+        ctx.violation("C09:roundtrip:snapshot:write-failed", &format!("write_xml failed: {}", e), json!({"serial": m.serial}));
+        return;
+    }
+    ctx.obs_max("roundtrip_doc_bytes_snapshot", xml.len() as u64);
+    let plan = reader_plan(rng, xml.len());
+    let detail = || json!({"xml_head": head(&xml), "xml_len": xml.len(), "elements": m.elements.len(), "reader": format!("{:?}", plan),
+                           "data_lens": m.elements.iter().take(40).map(|e| e.1.len()).collect::<Vec<_>>()});
+    let biggest = m.elements.iter().map(|e| e.1.len()).max().unwrap_or(0);
+    ctx.sig(&format!(
+        "rt snapshot n={} chars={} maxdata={} size={}",
+        g::count_class(m.elements.len()),
+        chars_of(m.elements.iter().map(|e| e.0.as_str())),
+        g::data_class(&vec![0u8; biggest.min(65_536)]),
+        size
+    ));
+    // (a) the owned parser
+    let res = ctx.no_panic("Snapshot::parse", detail, || match &plan {
+        None => Snapshot::parse(&xml[..]),
+        Some((cap, chunks)) => Snapshot::parse(BufReader::with_capacity(*cap, Dribble::new(&xml, chunks.clone()))),
+    });
+    ctx.eval();
+    match res {
+        None => {}
+        Some(Err(e)) => ctx.violation("C09:roundtrip:snapshot:rejected", &format!("a snapshot written by write_xml was rejected by parse: {}", e), detail()),
+        Some(Ok(p)) => {
+            ctx.obs("roundtrip_ok_candidates", 1);
+            if let Some(f) = l::diff_snap(&p, m) {
+                ctx.violation(&format!("C09:roundtrip:snapshot:{}", f), "parsed snapshot differs from the written value", detail());
+            } else if p != *v {
+                ctx.violation("C09:roundtrip:snapshot:not-eq", "parsed snapshot != written value although all fields agree", detail());
+            }
+        }
+    }
+    // (b) the harness' own ProcessSnapshot implementation
+    let mode = match rng.below(6) {
+        0 => ReadMode::ToEnd,
+        1 => ReadMode::Chunk(1),
+        2 => ReadMode::Chunk(*rng.pick(&[2usize, 3, 4, 5, 7, 1023, 1024, 1025])),
+        3 => ReadMode::Skip,
+        4 => ReadMode::Partial(*rng.pick(&[1usize, 3, 100])),
+        _ => ReadMode::Chunk(rng.range(1, 10_000) as usize),
+    };
+    if matches!(mode, ReadMode::Chunk(1)) && xml.len() > 400_000 {
+        return;
+    }
+    let mut c = Collect::new(mode);
+    let res = ctx.no_panic("ProcessSnapshot::process", detail, || ProcessSnapshot::process(&mut c, &xml[..]));
+    ctx.eval();
+    match res {
+        None => {}
+        Some(Err(e)) => ctx.violation("C09:roundtrip:snapshot:process-rejected", &format!("ProcessSnapshot::process rejected a written snapshot: {:?}", e), detail()),
+        Some(Ok(())) => {
+            let want: Vec<MEl> = m.elements.iter().map(|(u, d)| MEl::Publish(u.clone(), d.clone())).collect();
+            if let Some(f) = l::diff_collect(&c, &m.session, m.serial, &want) {
+                ctx.violation(&format!("C09:roundtrip:snapshot:process:{}", f), &format!("ProcessSnapshot callbacks differ from the written value (read mode {:?})", mode), detail());
+            }
+            ctx.obs(&format!("collector_mode_{}", mode_name(mode)), 1);
+        }
+    }
+    ctx.sample("roundtrip-snapshot", || {
+        json!({"session": g::uuid_text(&m.session), "serial": m.serial, "elements": m.elements.len(),
+               "first_uri": m.elements.first().map(|e| e.0.clone()), "data_lens": m.elements.iter().take(12).map(|e| e.1.len()).collect::<Vec<_>>(),
+               "xml_len": xml.len(), "observed": "Snapshot::parse and the collecting ProcessSnapshot both returned the written elements in order"})
+    });
+}
+
+fn mode_name(m: ReadMode) -> &'static str {
+    match m {
+        ReadMode::ToEnd => "read_to_end",
+        ReadMode::Chunk(_) => "chunked",
+        ReadMode::Skip => "skip",
+        ReadMode::Partial(_) => "partial",
+    }
+}
+
+fn rt_delta(ctx: &mut Ctx, rng: &mut Rng, m: &MDelta, v: &Delta, size: &str) {
+    let mut xml = Vec::new();
+    if let Err(e) = v.write_xml(&mut xml) {
+        ctx.violation("C09:roundtrip:delta:write-failed", &format!("write_xml failed: {}", e), json!({"serial": m.serial}));
+        return;
+    }
+    ctx.obs_max("roundtrip_doc_bytes_delta", xml.len() as u64);
+    let plan = reader_plan(rng, xml.len());
+    let order: String = m.elements.iter().take(60).map(|e| e.kind_char()).collect();
+    let detail = || json!({"xml_head": head(&xml), "xml_len": xml.len(), "elements": m.elements.len(), "order": order, "reader": format!("{:?}", plan)});
+    let mut kinds = std::collections::BTreeSet::new();
+    let mut transitions = std::collections::BTreeSet::new();
+    let mut prev = None;
+    for e in &m.elements {
+        kinds.insert(e.kind_char());
+        if let Some(p) = prev {
+            if p != e.kind_char() {
+                transitions.insert(format!("{}{}", p, e.kind_char()));
+            }
+        }
+        prev = Some(e.kind_char());
+    }
+    ctx.sig(&format!(
+        "rt delta n={} kinds={} transitions={} chars={} size={}",
+        g::count_class(m.elements.len()),
+        kinds.iter().collect::<String>(),
+        transitions.len(),
+        chars_of(m.elements.iter().map(|e| e.uri())),
+        size
+    ));
+    let res = ctx.no_panic("Delta::parse", detail, || match &plan {
+        None => Delta::parse(&xml[..]),
+        Some((cap, chunks)) => Delta::parse(BufReader::with_capacity(*cap, Dribble::new(&xml, chunks.clone()))),
+    });
+    ctx.eval();
+    match res {
+        None => {}
+        Some(Err(e)) => ctx.violation("C09:roundtrip:delta:rejected", &format!("a delta written by write_xml was rejected by parse: {}", e), detail()),
+        Some(Ok(p)) => {
+            ctx.obs("roundtrip_ok_candidates", 1);
+            if let Some(f) = l::diff_delta(&p, m) {
+                ctx.violation(&format!("C09:roundtrip:delta:{}", f), "parsed delta differs from the written value", detail());
+            } else if p != *v {
+                ctx.violation("C09:roundtrip:delta:not-eq", "parsed delta != written value although all fields agree", detail());
+            }
+        }
+    }
+    let mode = match rng.below(5) {
+        0 => ReadMode::ToEnd,
+        1 => ReadMode::Chunk(*rng.pick(&[1usize, 2, 3, 5, 1024])),
+        2 => ReadMode::Skip,
+        3 => ReadMode::Partial(*rng.pick(&[1usize, 3, 100])),
+        _ => ReadMode::Chunk(rng.range(1, 10_000) as usize),
+    };
+    if matches!(mode, ReadMode::Chunk(1)) && xml.len() > 400_000 {
+        return;
+    }
+    let mut c = Collect::new(mode);
+    let res = ctx.no_panic("ProcessDelta::process", detail, || ProcessDelta::process(&mut c, &xml[..]));
+    ctx.eval();
+    match res {
+        None => {}
+        Some(Err(e)) => ctx.violation("C09:roundtrip:delta:process-rejected", &format!("ProcessDelta::process rejected a written delta: {:?}", e), detail()),
+        Some(Ok(())) => {
+            if let Some(f) = l::diff_collect(&c, &m.session, m.serial, &m.elements) {
+                ctx.violation(&format!("C09:roundtrip:delta:process:{}", f), &format!("ProcessDelta callbacks differ from the written value (read mode {:?})", mode), detail());
+            }
+            ctx.obs(&format!("collector_mode_{}", mode_name(mode)), 1);
+        }
+    }
+    ctx.sample("roundtrip-delta", || {
+        json!({"session": g::uuid_text(&m.session), "serial": m.serial, "element_kinds_in_order": order,
+               "first_uri": m.elements.first().map(|e| e.uri().to_string()), "xml_len": xml.len(),
+               "observed": "Delta::parse and the collecting ProcessDelta both returned the written elements in order"})
+    });
+}
+
+//------------ foreign valid documents (observation only) --------------------
+
+/// Documents produced by the harness' own writer in many legal spellings.
+/// The statement only demands "error or value, no panic" for them; whether
+/// they are accepted and whether the value is the intended one is recorded.
+fn foreign(ctx: &mut Ctx) {
+    let n = crate::c09_io::budget(ctx, (6_000, 90_000), 6_000, (4, 24));
+    let mut rng = ctx.rng("foreign");
+    let tiny = ctx.stage == Stage::Miri;
+    for i in 0..n {
+        let kind = Kind::ALL[(i % 3) as usize];
+        let plan = if tiny {
+            SizePlan { max_elements: 3, data_cap: 60, long_uris: false }
+        } else {
+            SizePlan { max_elements: 12, data_cap: 2_000, long_uris: false }
+        };
+        let st = Style::random(&mut rng);
+        let detail_style = st.describe();
+        let (doc, verdict): (Vec<u8>, Option<Result<Option<String>, String>>) = match kind {
+            Kind::Notification => {
+                let m = g::gen_notif(&mut rng, &plan);
+                let d = g::write_notif(&m, &st, &mut rng).bytes;
+                let r = ctx.no_panic("NotificationFile::parse(foreign)", || json!({"doc": head(&d), "style": detail_style}), || NotificationFile::parse(&d[..]));
+                let v = r.map(|r| r.map(|p| l::diff_notif(&p, &m)).map_err(|e| e.to_string()));
+                (d, v)
+            }
+            Kind::Snapshot => {
+                let m = g::gen_snap(&mut rng, &plan);
+                let d = g::write_snap(&m, &st, &mut rng).bytes;
+                let r = ctx.no_panic("Snapshot::parse(foreign)", || json!({"doc": head(&d), "style": detail_style}), || Snapshot::parse(&d[..]));
+                let v = r.map(|r| r.map(|p| l::diff_snap(&p, &m)).map_err(|e| e.to_string()));
+                (d, v)
+            }
+            Kind::Delta => {
+                let m = g::gen_delta(&mut rng, &plan);
+                let d = g::write_delta(&m, &st, &mut rng).bytes;
+                let r = ctx.no_panic("Delta::parse(foreign)", || json!({"doc": head(&d), "style": detail_style}), || Delta::parse(&d[..]));
+                let v = r.map(|r| r.map(|p| l::diff_delta(&p, &m)).map_err(|e| e.to_string()));
+                (d, v)
+            }
+        };
+        ctx.eval();
+        match verdict {
+            None => {}
+            Some(Ok(None)) => {
+                ctx.obs("foreign_valid_accepted_with_intended_value", 1);
+                ctx.sig(&format!("foreign {} accepted ns{} q{} e{} b{} a{}", kind.name(), st.prefix_ns as u8, st.quote, st.empty_style, st.b64_wrap, st.amp_style));
+            }
+            Some(Ok(Some(field))) => {
+                ctx.obs("foreign_valid_accepted_with_other_value", 1);
+                ctx.sample("foreign-accepted-with-other-value", || json!({"kind": kind.name(), "field": field, "style": detail_style, "doc_head": head(&doc)}));
+            }
+            Some(Err(e)) => {
+                ctx.obs("foreign_valid_rejected", 1);
+                ctx.sig(&format!("foreign {} rejected decl{} ns{} H{}", kind.name(), st.decl, st.prefix_ns as u8, st.upper_hex as u8));
+                ctx.sample("foreign-rejected", || json!({"kind": kind.name(), "error": e, "style": detail_style, "doc_head": head(&doc)}));
+            }
+        }
+        if i == 0 {
+            ctx.sample("foreign-accepted", || json!({"kind": kind.name(), "style": detail_style, "doc_head": head(&doc)}));
+        }
+    }
+    let _ = (hex(&[]), Tier::Quick);
 }
